@@ -480,38 +480,18 @@ theorem build_mono (vt : Bytes) (vi rt0 : Nat) (hdr : Fields) (c id : Bytes)
     (h : (build H (o.withPol S) Ω vt vi rt0 hdr c id).err = none) : (build H (o.withPol L) Ω vt vi rt0 hdr c id).err = none := by
   unfold build at h ⊢
   simp only at h ⊢
-  have hacc : Acc Eq
-      (do let rtv ← validateHeader (o.withPol L) Ω vi
-          let rt := if rt0 == 0 then rtv else rt0
-          let b ← parseBlock (o.withPol L) Ω rt c false
-          validateDigest H (o.withPol L) rt b false
-          let h ← M.hdr
-          pure ({ verTxt := vt, verId := vi, rt := rt, hdr := h, block := b } : Rec))
-      (do let rtv ← validateHeader (o.withPol S) Ω vi
-          let rt := if rt0 == 0 then rtv else rt0
-          let b ← parseBlock (o.withPol S) Ω rt c false
-          validateDigest H (o.withPol S) rt b false
-          let h ← M.hdr
-          pure ({ verTxt := vt, verId := vi, rt := rt, hdr := h, block := b } : Rec)) := by
+  generalize (o.addMissingContentLength && !Fields.has (if (o.addMissingRecordId && !Fields.has hdr (bs "WARC-Record-ID")) = true then
+      Fields.setId hdr (bs "WARC-Record-ID") id else hdr) (bs "Content-Length")) = cla at h ⊢
+  have hacc : Acc Eq (buildBody H (o.withPol L) Ω vt vi rt0 cla c) (buildBody H (o.withPol S) Ω vt vi rt0 cla c) := by
+    unfold buildBody
     refine Acc.bind (validateHeader_mono o Ω L S hle vi) (fun rtv => ?_)
     refine Acc.bind (parseBlock_mono o Ω L S hle _ c false) (fun b => ?_)
+    refine Acc.bind Rel.hdr (fun h0 => ?_)
+    refine Acc.bind (Rel.setHdr _) (fun _ => ?_)
     refine Acc.bind (validateDigest_rel o L S hle H _ b false) (fun _ => ?_)
     exact Acc.total _ (fun s => ⟨_, _, rfl⟩)
-  generalize hS : (do let rtv ← validateHeader (o.withPol S) Ω vi
-                      let rt := if rt0 == 0 then rtv else rt0
-                      let b ← parseBlock (o.withPol S) Ω rt c false
-                      validateDigest H (o.withPol S) rt b false
-                      let h ← M.hdr
-                      pure ({ verTxt := vt, verId := vi, rt := rt, hdr := h, block := b } : Rec) : M Rec) = mS at h hacc
-  generalize hL : (do let rtv ← validateHeader (o.withPol L) Ω vi
-                      let rt := if rt0 == 0 then rtv else rt0
-                      let b ← parseBlock (o.withPol L) Ω rt c false
-                      validateDigest H (o.withPol L) rt b false
-                      let h ← M.hdr
-                      pure ({ verTxt := vt, verId := vi, rt := rt, hdr := h, block := b } : Rec) : M Rec) = mL at hacc ⊢
-  clear hS hL
   generalize (⟨_, []⟩ : St) = st0 at h ⊢
-  cases hS' : mS st0 with
+  cases hS' : buildBody H (o.withPol S) Ω vt vi rt0 cla c st0 with
   | mk r st =>
     rw [hS'] at h
     cases r with
